@@ -184,6 +184,26 @@ func (p *PKI) reloadCerts(c *config.C, initial bool) *util.ContextualError {
 		}
 	}
 
+	if currentState != nil {
+		// The per version checks above only compare like with like, adding or removing a certificate version must
+		// not change the networks or the curve the running node (tun, firewall, hostmap) was built for either.
+		if !slices.Equal(currentState.myVpnNetworks, newState.myVpnNetworks) {
+			return util.NewContextualError(
+				"Networks in new cert was different from old",
+				m{"new_networks": newState.myVpnNetworks, "old_networks": currentState.myVpnNetworks},
+				nil,
+			)
+		}
+
+		if currentState.GetDefaultCertificate().Curve() != newState.GetDefaultCertificate().Curve() {
+			return util.NewContextualError(
+				"Curve in new cert was different from old",
+				m{"new_curve": newState.GetDefaultCertificate().Curve(), "old_curve": currentState.GetDefaultCertificate().Curve()},
+				nil,
+			)
+		}
+	}
+
 	p.cs.Store(newState)
 
 	if initial {
